@@ -145,6 +145,31 @@ def r5b(ctx: Ctx) -> list[Ob]:
     return out
 
 
+def _lossless_shortcut(c: ClassInfo, init, fwd, ret: ast.Return) -> bool:
+    """the bypassing return is a plain pass-through of the input, or is guarded by an attribute the
+    constructor only sets after comparing the *whole* index list with ``range(..)`` / ``list(range(..))``"""
+    params = [a.arg for a in fwd.node.args.args if a.arg != "self"]
+    if isinstance(ret.value, ast.Name) and ret.value.id in params:
+        return True
+    # attributes read by the conditions dominating the return
+    attrs: set[str] = set()
+    cur_tests = [n.test for n in ast.walk(fwd.node) if isinstance(n, ast.If) and any(x is ret for b in [n.body] for s_ in b for x in ast.walk(s_))]
+    for t in cur_tests:
+        attrs |= {x.attr for x in ast.walk(t) if isinstance(x, ast.Attribute) and isinstance(x.value, ast.Name) and x.value.id == "self"}
+    if not attrs:
+        return False
+    for n in ast.walk(init.node):
+        if isinstance(n, ast.If) and any(isinstance(s_, ast.Assign) and any(is_self_attr(t) in attrs for t in s_.targets) for s_ in ast.walk(n) if isinstance(s_, ast.Assign)):
+            for cmp_ in ast.walk(n.test):
+                if isinstance(cmp_, ast.Compare) and len(cmp_.ops) == 1 and isinstance(cmp_.ops[0], ast.Eq):
+                    sides = [cmp_.left, cmp_.comparators[0]]
+                    whole = [s_ for s_ in sides if isinstance(s_, ast.Name) or (isinstance(s_, ast.Call) and isinstance(s_.func, ast.Name) and s_.func.id in ("list", "tuple") and s_.args and isinstance(s_.args[0], ast.Name))]
+                    rng = [s_ for s_ in sides if "range(" in unparse(s_)]
+                    if whole and rng:
+                        return True
+    return False
+
+
 # ------------------------------------------------------------------------------- R5c: registered index tensors
 def r5c(ctx: Ctx) -> list[Ob]:
     """R5c: an index tensor a parameter node registers as a buffer in its constructor (the indices
@@ -184,6 +209,9 @@ def r5c(ctx: Ctx) -> list[Ob]:
                     bad = r
                     break
             inst = f"buffer:{b}"
+            if bad is not None and _lossless_shortcut(c, init, fwd, bad):
+                out.append(ok("R5c", c.qualname, inst, f"a return path of forward bypasses self.{b}, guarded by a constructor test that compares the whole index list with a range (lossless)", fwd.loc, nontrivial=False))
+                continue
             if bad is None:
                 out.append(ok("R5c", c.qualname, inst, f"every return path of forward reads self.{b}", fwd.loc))
             else:
